@@ -796,6 +796,54 @@ pub trait TreeNodeContainer<'a, T: 'a>: Sized {
     ) -> Result<Transformed<Self>>;
 }
 
+/// Applies `f` to the elements of `c`, a sibling of the containers visited so far.
+/// A container that holds no element visits nothing, so it must not change how the
+/// traversal stands: `prev` (the state after the previous siblings, in particular a
+/// pending `Jump`) is kept in that case.
+fn apply_sibling_container<
+    'a,
+    T: 'a,
+    C: TreeNodeContainer<'a, T>,
+    F: FnMut(&'a T) -> Result<TreeNodeRecursion>,
+>(
+    prev: TreeNodeRecursion,
+    c: &'a C,
+    f: &mut F,
+) -> Result<TreeNodeRecursion> {
+    if prev == TreeNodeRecursion::Stop {
+        return Ok(prev);
+    }
+    let mut visited = false;
+    let tnr = c.apply_elements(|e| {
+        visited = true;
+        f(e)
+    })?;
+    Ok(if visited { tnr } else { prev })
+}
+
+/// Mapping counterpart of [`apply_sibling_container`]: the `tnr` of the result is
+/// `prev` when the container held no element. Must not be called when `prev` is `Stop`.
+fn map_sibling_container<
+    'a,
+    T: 'a,
+    C: TreeNodeContainer<'a, T>,
+    F: FnMut(T) -> Result<Transformed<T>>,
+>(
+    prev: TreeNodeRecursion,
+    c: C,
+    f: &mut F,
+) -> Result<Transformed<C>> {
+    let mut visited = false;
+    let mut t = c.map_elements(|e| {
+        visited = true;
+        f(e)
+    })?;
+    if !visited {
+        t.tnr = prev;
+    }
+    Ok(t)
+}
+
 impl<'a, T: 'a, C: TreeNodeContainer<'a, T> + Default> TreeNodeContainer<'a, T>
     for Box<C>
 {
@@ -876,7 +924,7 @@ impl<'a, T: 'a, C: TreeNodeContainer<'a, T>> TreeNodeContainer<'a, T> for Vec<C>
     ) -> Result<TreeNodeRecursion> {
         let mut tnr = TreeNodeRecursion::Continue;
         for c in self {
-            tnr = c.apply_elements(&mut f)?;
+            tnr = apply_sibling_container(tnr, c, &mut f)?;
             match tnr {
                 TreeNodeRecursion::Continue | TreeNodeRecursion::Jump => {}
                 TreeNodeRecursion::Stop => return Ok(TreeNodeRecursion::Stop),
@@ -894,7 +942,7 @@ impl<'a, T: 'a, C: TreeNodeContainer<'a, T>> TreeNodeContainer<'a, T> for Vec<C>
         self.into_iter()
             .map(|c| match tnr {
                 TreeNodeRecursion::Continue | TreeNodeRecursion::Jump => {
-                    c.map_elements(&mut f).map(|result| {
+                    map_sibling_container(tnr, c, &mut f).map(|result| {
                         tnr = result.tnr;
                         transformed |= result.transformed;
                         result.data
@@ -916,7 +964,7 @@ impl<'a, T: 'a, K: Eq + Hash, C: TreeNodeContainer<'a, T>> TreeNodeContainer<'a,
     ) -> Result<TreeNodeRecursion> {
         let mut tnr = TreeNodeRecursion::Continue;
         for c in self.values() {
-            tnr = c.apply_elements(&mut f)?;
+            tnr = apply_sibling_container(tnr, c, &mut f)?;
             match tnr {
                 TreeNodeRecursion::Continue | TreeNodeRecursion::Jump => {}
                 TreeNodeRecursion::Stop => return Ok(TreeNodeRecursion::Stop),
@@ -934,7 +982,7 @@ impl<'a, T: 'a, K: Eq + Hash, C: TreeNodeContainer<'a, T>> TreeNodeContainer<'a,
         self.into_iter()
             .map(|(k, c)| match tnr {
                 TreeNodeRecursion::Continue | TreeNodeRecursion::Jump => {
-                    c.map_elements(&mut f).map(|result| {
+                    map_sibling_container(tnr, c, &mut f).map(|result| {
                         tnr = result.tnr;
                         transformed |= result.transformed;
                         (k, result.data)
@@ -954,22 +1002,23 @@ impl<'a, T: 'a, C0: TreeNodeContainer<'a, T>, C1: TreeNodeContainer<'a, T>>
         &'a self,
         mut f: F,
     ) -> Result<TreeNodeRecursion> {
-        self.0
-            .apply_elements(&mut f)?
-            .visit_sibling(|| self.1.apply_elements(&mut f))
+        let tnr = self.0.apply_elements(&mut f)?;
+        apply_sibling_container(tnr, &self.1, &mut f)
     }
 
     fn map_elements<F: FnMut(T) -> Result<Transformed<T>>>(
         self,
         mut f: F,
     ) -> Result<Transformed<Self>> {
-        self.0
+        let t = self
+            .0
             .map_elements(&mut f)?
-            .map_data(|new_c0| Ok((new_c0, self.1)))?
-            .transform_sibling(|(new_c0, c1)| {
-                c1.map_elements(&mut f)?
-                    .map_data(|new_c1| Ok((new_c0, new_c1)))
-            })
+            .map_data(|new_c0| Ok((new_c0, self.1)))?;
+        let prev = t.tnr;
+        t.transform_sibling(|(new_c0, c1)| {
+            map_sibling_container(prev, c1, &mut f)?
+                .map_data(|new_c1| Ok((new_c0, new_c1)))
+        })
     }
 }
 
@@ -985,27 +1034,29 @@ impl<
         &'a self,
         mut f: F,
     ) -> Result<TreeNodeRecursion> {
-        self.0
-            .apply_elements(&mut f)?
-            .visit_sibling(|| self.1.apply_elements(&mut f))?
-            .visit_sibling(|| self.2.apply_elements(&mut f))
+        let tnr = self.0.apply_elements(&mut f)?;
+        let tnr = apply_sibling_container(tnr, &self.1, &mut f)?;
+        apply_sibling_container(tnr, &self.2, &mut f)
     }
 
     fn map_elements<F: FnMut(T) -> Result<Transformed<T>>>(
         self,
         mut f: F,
     ) -> Result<Transformed<Self>> {
-        self.0
+        let t = self
+            .0
             .map_elements(&mut f)?
-            .map_data(|new_c0| Ok((new_c0, self.1, self.2)))?
-            .transform_sibling(|(new_c0, c1, c2)| {
-                c1.map_elements(&mut f)?
-                    .map_data(|new_c1| Ok((new_c0, new_c1, c2)))
-            })?
-            .transform_sibling(|(new_c0, new_c1, c2)| {
-                c2.map_elements(&mut f)?
-                    .map_data(|new_c2| Ok((new_c0, new_c1, new_c2)))
-            })
+            .map_data(|new_c0| Ok((new_c0, self.1, self.2)))?;
+        let prev = t.tnr;
+        let t = t.transform_sibling(|(new_c0, c1, c2)| {
+            map_sibling_container(prev, c1, &mut f)?
+                .map_data(|new_c1| Ok((new_c0, new_c1, c2)))
+        })?;
+        let prev = t.tnr;
+        t.transform_sibling(|(new_c0, new_c1, c2)| {
+            map_sibling_container(prev, c2, &mut f)?
+                .map_data(|new_c2| Ok((new_c0, new_c1, new_c2)))
+        })
     }
 }
 
@@ -1022,32 +1073,35 @@ impl<
         &'a self,
         mut f: F,
     ) -> Result<TreeNodeRecursion> {
-        self.0
-            .apply_elements(&mut f)?
-            .visit_sibling(|| self.1.apply_elements(&mut f))?
-            .visit_sibling(|| self.2.apply_elements(&mut f))?
-            .visit_sibling(|| self.3.apply_elements(&mut f))
+        let tnr = self.0.apply_elements(&mut f)?;
+        let tnr = apply_sibling_container(tnr, &self.1, &mut f)?;
+        let tnr = apply_sibling_container(tnr, &self.2, &mut f)?;
+        apply_sibling_container(tnr, &self.3, &mut f)
     }
 
     fn map_elements<F: FnMut(T) -> Result<Transformed<T>>>(
         self,
         mut f: F,
     ) -> Result<Transformed<Self>> {
-        self.0
+        let t = self
+            .0
             .map_elements(&mut f)?
-            .map_data(|new_c0| Ok((new_c0, self.1, self.2, self.3)))?
-            .transform_sibling(|(new_c0, c1, c2, c3)| {
-                c1.map_elements(&mut f)?
-                    .map_data(|new_c1| Ok((new_c0, new_c1, c2, c3)))
-            })?
-            .transform_sibling(|(new_c0, new_c1, c2, c3)| {
-                c2.map_elements(&mut f)?
-                    .map_data(|new_c2| Ok((new_c0, new_c1, new_c2, c3)))
-            })?
-            .transform_sibling(|(new_c0, new_c1, new_c2, c3)| {
-                c3.map_elements(&mut f)?
-                    .map_data(|new_c3| Ok((new_c0, new_c1, new_c2, new_c3)))
-            })
+            .map_data(|new_c0| Ok((new_c0, self.1, self.2, self.3)))?;
+        let prev = t.tnr;
+        let t = t.transform_sibling(|(new_c0, c1, c2, c3)| {
+            map_sibling_container(prev, c1, &mut f)?
+                .map_data(|new_c1| Ok((new_c0, new_c1, c2, c3)))
+        })?;
+        let prev = t.tnr;
+        let t = t.transform_sibling(|(new_c0, new_c1, c2, c3)| {
+            map_sibling_container(prev, c2, &mut f)?
+                .map_data(|new_c2| Ok((new_c0, new_c1, new_c2, c3)))
+        })?;
+        let prev = t.tnr;
+        t.transform_sibling(|(new_c0, new_c1, new_c2, c3)| {
+            map_sibling_container(prev, c3, &mut f)?
+                .map_data(|new_c3| Ok((new_c0, new_c1, new_c2, new_c3)))
+        })
     }
 }
 
@@ -1084,7 +1138,7 @@ impl<'a, T: 'a, C: TreeNodeContainer<'a, T>> TreeNodeRefContainer<'a, T> for Vec
     ) -> Result<TreeNodeRecursion> {
         let mut tnr = TreeNodeRecursion::Continue;
         for c in self {
-            tnr = c.apply_elements(&mut f)?;
+            tnr = apply_sibling_container(tnr, *c, &mut f)?;
             match tnr {
                 TreeNodeRecursion::Continue | TreeNodeRecursion::Jump => {}
                 TreeNodeRecursion::Stop => return Ok(TreeNodeRecursion::Stop),
@@ -1101,9 +1155,8 @@ impl<'a, T: 'a, C0: TreeNodeContainer<'a, T>, C1: TreeNodeContainer<'a, T>>
         &self,
         mut f: F,
     ) -> Result<TreeNodeRecursion> {
-        self.0
-            .apply_elements(&mut f)?
-            .visit_sibling(|| self.1.apply_elements(&mut f))
+        let tnr = self.0.apply_elements(&mut f)?;
+        apply_sibling_container(tnr, self.1, &mut f)
     }
 }
 
@@ -1119,10 +1172,9 @@ impl<
         &self,
         mut f: F,
     ) -> Result<TreeNodeRecursion> {
-        self.0
-            .apply_elements(&mut f)?
-            .visit_sibling(|| self.1.apply_elements(&mut f))?
-            .visit_sibling(|| self.2.apply_elements(&mut f))
+        let tnr = self.0.apply_elements(&mut f)?;
+        let tnr = apply_sibling_container(tnr, self.1, &mut f)?;
+        apply_sibling_container(tnr, self.2, &mut f)
     }
 }
 
@@ -1139,11 +1191,10 @@ impl<
         &self,
         mut f: F,
     ) -> Result<TreeNodeRecursion> {
-        self.0
-            .apply_elements(&mut f)?
-            .visit_sibling(|| self.1.apply_elements(&mut f))?
-            .visit_sibling(|| self.2.apply_elements(&mut f))?
-            .visit_sibling(|| self.3.apply_elements(&mut f))
+        let tnr = self.0.apply_elements(&mut f)?;
+        let tnr = apply_sibling_container(tnr, self.1, &mut f)?;
+        let tnr = apply_sibling_container(tnr, self.2, &mut f)?;
+        apply_sibling_container(tnr, self.3, &mut f)
     }
 }
 
